@@ -976,10 +976,16 @@ class Variable(CanBehaveLikeAVariable[T]):
             yield kwargs
             return
         (name, var), remaining_child_vars = child_vars[0], child_vars[1:]
-        for value in var._evaluate__(copy(bindings)):
-            new_bindings = copy(bindings)
-            new_bindings.update(value)
-            yield from self._bind_child_vars_(remaining_child_vars, new_bindings, {**kwargs, name: value})
+        # an argument is used as a value here, also when the same expression object is a condition somewhere else.
+        previous_eval_parent = var._eval_parent_
+        var._eval_parent_ = self
+        try:
+            for value in var._evaluate__(copy(bindings)):
+                new_bindings = copy(bindings)
+                new_bindings.update(value)
+                yield from self._bind_child_vars_(remaining_child_vars, new_bindings, {**kwargs, name: value})
+        finally:
+            var._eval_parent_ = previous_eval_parent
 
     def _yield_from_cache_or_instantiate_new_values_(self, sources: Optional[Dict[int, HashedValue]] = None,
                                                      kwargs: Dict[str, Dict[int, HashedValue]] = None):
